@@ -1,11 +1,62 @@
 /-
   Protocol ops of one area (see /verif/FRAMEWORK.md).  Not part of any theorem.  Core Lean only.
+  C17: FASTA write / scan / writer metadata cases / GenBank → FASTA description.
 -/
 import Gts.Model.Sexp
+import Gts.Model.Fasta
 namespace Gts
+open Gts.Fasta
+
+def encScanOut : ScanOut → String
+  | .done rs clean =>
+    encList (rs.map fun r => encList [encBytes r.1, encBytes r.2]) ++ (if clean then " OK" else " ERR")
+  | .panic => "PANIC"
+  | .unmodelled => "UNMODELLED"
+
+/-- `fasta.wseq` kinds: 0 `Fasta`, 1 `*Fasta`, 2 `gts.New(string, …)`, 3 `gts.New(fmt.Stringer, …)`,
+4 `gts.New(int, …)` -/
+def decSeqVal? (kind : Int) (d b : List UInt8) : Option SeqVal :=
+  match kind with
+  | 0 => some (.fasta d b)
+  | 1 => some (.fastaPtr d b)
+  | 2 => some (.generic (.str d) b)
+  | 3 => some (.generic (.stringer d) b)
+  | 4 => some (.generic .other b)
+  | _ => none
+
+/-- `seqio.NewWriter(w, ft).WriteSeq(v)`: `ft = 1` is `FastaFile`, `ft = 0` is `DefaultFile`
+(auto-detection); a GenBank text is answered by the token `GENBANK` only. -/
+def encWriteSeq (ft : Int) (v : SeqVal) : String :=
+  let viaFasta := match fastaWriteSeq v with
+    | some t => encBytes t
+    | none => "ERR"
+  if ft == 1 then viaFasta
+  else match detectWriter v with
+    | .fasta => viaFasta
+    | .genbank => "GENBANK"
+    | .error => "ERR"
 
 def evalIO (op : String) (args : List Sexp) : Option String :=
   match op, args with
+  | "fasta.write", [d, b] => do pure (encBytes (fastaWrite (← decBytes? d) (← decBytes? b)))
+  | "fasta.wrap", [b, n] => do
+      let n ← decInt? n
+      if n < 1 then pure "UNMODELLED" else pure (encBytes (wrapForce (← decBytes? b) n.toNat))
+  | "fasta.scan", [t] => do pure (encScanOut (scanAll true (← decBytes? t)))
+  | "fasta.scanp", [t] => do pure (encScanOut (scanAll false (← decBytes? t)))
+  | "fasta.wseq", [ft, k, d, b] => do
+      pure (encWriteSeq (← decInt? ft) (← decSeqVal? (← decInt? k) (← decBytes? d) (← decBytes? b)))
+  | "fasta.desc", [ft, v, d, b] => do
+      pure (encWriteSeq (← decInt? ft) (.generic (.genbank (← decBytes? v) (← decBytes? d) none) (← decBytes? b)))
+  | "fasta.desc", [ft, v, d, b, s, e] => do
+      let b ← decBytes? b
+      let s ← decInt? s
+      let e ← decInt? e
+      -- gts.Slice(gb, s, e) inside the record: Region = Segment{s, e}, residues b[s:e]
+      if 0 ≤ s ∧ s ≤ e ∧ e ≤ b.length then
+        pure (encWriteSeq (← decInt? ft)
+          (.generic (.genbank (← decBytes? v) (← decBytes? d) (some (s, e))) ((b.drop s.toNat).take (e - s).toNat)))
+      else pure "UNMODELLED"
   | _, _ => none
 
 end Gts
